@@ -9,9 +9,12 @@ G-tie for C15 (also used by C06/C07): translate into Lean (Gen/Modes.lean)
   * the send phase of `_tcp_outgoing`: flag computation -> `flagsOf`, the device
     mutations before the send -> `prep`, the payload expression -> `payload`,
     the `cache_sync` resolution (pinned shape), the post-send assignments of
-    every branch -> `book`;
+    every branch -> `book`; the reset counter is read (`resets = d.resets`)
+    BEFORE `last_comms` in the decision loop, travels in the outlist entry and
+    is the second argument of `d.contacted(now, resets)` (order checked);
   * BoboDeviceManager: constructor, the three setters (with their clamps),
-    `clear_last`, `clear_stash`, `append_stash`, `size_stash`, and that the
+    `clear_last` (incl. the reset counter), `contacted`, `clear_stash`,
+    `append_stash`, `size_stash`, and that the
     getters / `stash()` return the plain fields;
   * the reset test at the end of `_tcp_incoming_handle_client` -> `onIncomingFlags`.
 
@@ -29,7 +32,7 @@ TYPE_NAMES = {'_TYPE_SYNC': '.sync', '_TYPE_PING': '.ping', '_TYPE_RESYNC': '.re
 PERIOD_PARAMS = ['period_ping', 'period_resync', 'attempt_stash', 'attempt_ping', 'attempt_resync']
 PERIOD_FIELDS = {'period_ping': 'periodPing', 'period_resync': 'periodResync', 'attempt_stash': 'attemptStash',
                  'attempt_ping': 'attemptPing', 'attempt_resync': 'attemptResync'}
-DEV_FIELDS = {'_last_comms': 'lastComms', '_last_attempt': 'lastAttempt', '_flag_reset': 'flagReset',
+DEV_FIELDS = {'_last_comms': 'lastComms', '_last_attempt': 'lastAttempt', '_resets': 'resets', '_flag_reset': 'flagReset',
               '_stash_completed': 'stashC', '_stash_halted': 'stashH', '_stash_updated': 'stashU'}
 KEYS = {'_KEY_COMPLETED': 'c', '_KEY_HALTED': 'h', '_KEY_UPDATED': 'u'}
 
@@ -151,16 +154,25 @@ def decision_phase(fn):
     need(isinstance(s_for, ast.For) and U(s_for.target) == 'd' and U(s_for.iter) == 'self._devices.values()'
          and not s_for.orelse, "_tcp_outgoing: device loop header changed")
     fb = s_for.body
-    need(len(fb) == 5, f"_tcp_outgoing: device loop has {len(fb)} statements, expected 5")
+    need(len(fb) == 6, f"_tcp_outgoing: device loop has {len(fb)} statements, expected 6")
     need(U(fb[0]) == 'if d.urn == self._urn:\n    continue', "_tcp_outgoing: skip-self test changed")
 
     def local(st, name, value):
         tgt = st.target if isinstance(st, ast.AnnAssign) else (st.targets[0] if isinstance(st, ast.Assign) else None)
         need(tgt is not None and U(tgt) == name and U(st.value) == value,
              f"_tcp_outgoing: local `{name}` is not `{value}`: {U(st)}")
-    local(fb[1], 'comms_range', 'now - d.last_comms')
-    local(fb[2], 'attempt_range', 'now - d.last_attempt')
-    local(fb[3], 'queue_empty', 'self._queue_outgoing.empty()')
+    # the reset counter must be read BEFORE the times: a reset handled after this read makes
+    # `contacted` refuse to record the send; read after `last_comms`, a reset in between would be missed
+    local(fb[1], 'resets', 'd.resets')
+    local(fb[2], 'comms_range', 'now - d.last_comms')
+    local(fb[3], 'attempt_range', 'now - d.last_attempt')
+    local(fb[4], 'queue_empty', 'self._queue_outgoing.empty()')
+    for st in fb[2:]:
+        for sub in ast.walk(st):
+            need(not (isinstance(sub, ast.Attribute) and sub.attr == 'resets'), "_tcp_outgoing: d.resets read again after the times")
+            if isinstance(sub, (ast.Assign, ast.AnnAssign, ast.AugAssign)):
+                tg = sub.targets[0] if isinstance(sub, ast.Assign) else sub.target
+                need(U(tg) != 'resets', "_tcp_outgoing: local `resets` rebound after the times were read")
 
     names = {'comms_range': 'c', 'attempt_range': 'a', 'queue_empty': 'qEmpty'}
     for p in PERIOD_PARAMS:
@@ -181,8 +193,9 @@ def decision_phase(fn):
              "decision tree: leaf is not a single outlist.append")
         c = stmts[0].value
         need(U(c.func) == 'outlist.append' and len(c.args) == 1 and isinstance(c.args[0], ast.Tuple)
-             and len(c.args[0].elts) == 2 and U(c.args[0].elts[0]) == 'd'
-             and U(c.args[0].elts[1]) in TYPE_NAMES, "decision tree: leaf appends something else: " + U(c))
+             and len(c.args[0].elts) == 3 and U(c.args[0].elts[0]) == 'd'
+             and U(c.args[0].elts[1]) in TYPE_NAMES and U(c.args[0].elts[2]) == 'resets',
+             "decision tree: leaf does not append (d, _TYPE_*, resets): " + U(c))
         return TYPE_NAMES[U(c.args[0].elts[1])]
 
     def tree(node):
@@ -200,8 +213,8 @@ def decision_phase(fn):
             el = 'some ' + append_type(node.orelse)
         return f"(if {cond} then {th} else {el})"
 
-    need(isinstance(fb[4], ast.If), "_tcp_outgoing: decision tree missing")
-    return tree(fb[4]), cache_decl, send_for
+    need(isinstance(fb[5], ast.If), "_tcp_outgoing: decision tree missing")
+    return tree(fb[5]), cache_decl, send_for
 
 
 # ---------------------------------------------------------------------------
@@ -240,6 +253,9 @@ def dev_mutation(st, env_expr):
         if m == 'clear_last':
             need(not c.args and not c.keywords, "clear_last arity")
             return "clearLast p"
+        if m == 'contacted':
+            need(len(c.args) == 2 and not c.keywords, "contacted arity")
+            return f"contacted p {env_expr.tr(c.args[0])} {env_expr.tr(c.args[1])}"
         if m == 'append_stash':
             need(not c.args and sorted(k.arg for k in c.keywords) == ['completed', 'halted', 'updated'],
                  "append_stash is not called with the three keywords")
@@ -275,7 +291,7 @@ def block_prog(stmts, env_expr):
 def send_phase(cache_decl, send_for):
     need(U(cache_decl) == 'cache_sync: Optional[Dict[str, List[BoboRunSerial]]] = None',
          "_tcp_outgoing: cache_sync is not initialised to None once per pass: " + U(cache_decl))
-    need(isinstance(send_for, ast.For) and U(send_for.target) == '(d, msg_type)' and U(send_for.iter) == 'outlist'
+    need(isinstance(send_for, ast.For) and U(send_for.target) == '(d, msg_type, resets)' and U(send_for.iter) == 'outlist'
          and not send_for.orelse, "_tcp_outgoing: send loop header changed")
     sb = send_for.body
     need(len(sb) == 3, f"_tcp_outgoing: send loop has {len(sb)} statements, expected flags / if flag / branch tree")
@@ -305,7 +321,11 @@ def send_phase(cache_decl, send_for):
         node = node.orelse[0]
     need(set(branches) == set(TYPE_NAMES.values()), "send loop: not exactly the three branches")
 
-    env = ExprT({'now': 'now', 'err': 'err', 'msg_flags': 'flags', '_FLAG_RESET': 'FLAG_RESET'})
+    env = ExprT({'now': 'now', 'err': 'err', 'msg_flags': 'flags', '_FLAG_RESET': 'FLAG_RESET', 'resets': 'seen'})
+    for sub in ast.walk(send_for):
+        if isinstance(sub, (ast.Assign, ast.AnnAssign, ast.AugAssign)):
+            tg = sub.targets[0] if isinstance(sub, ast.Assign) else sub.target
+            need(U(tg) != 'resets', "send loop: `resets` rebound")
     prep, pay, book = {}, {}, {}
     for k, stmts in branches.items():
         stmts = strip_logging(stmts)
@@ -374,10 +394,22 @@ def devman(cls):
 
     def fields_prog(stmts, params):
         names = dict(params)
-        tr = ExprT(names, {'max': _call_max})
+        rnames = dict(names)
+        for k, v in DEV_FIELDS.items():
+            rnames['self.' + k] = 'p.' + v
+        tr = ExprT(rnames, {'max': _call_max})
         parts = []
         for st in stmts:
-            if isinstance(st, (ast.Assign, ast.AnnAssign)):
+            if isinstance(st, ast.If):
+                need(not st.orelse, "devman: if with else")
+                parts.append(f"(if {tr.tr(st.test)} then {fields_prog(st.body, params)} else p)")
+            elif isinstance(st, ast.AugAssign):
+                tgt = st.target
+                need(isinstance(tgt, ast.Attribute) and U(tgt.value) == 'self' and tgt.attr in DEV_FIELDS
+                     and isinstance(st.op, ast.Add), "devman: augmented assignment " + U(st))
+                f = DEV_FIELDS[tgt.attr]
+                parts.append(f"{{ p with {f} := (p.{f} + {tr.tr(st.value)}) }}")
+            elif isinstance(st, (ast.Assign, ast.AnnAssign)):
                 tgt = st.target if isinstance(st, ast.AnnAssign) else st.targets[0]
                 need(isinstance(tgt, ast.Attribute) and U(tgt.value) == 'self' and tgt.attr in DEV_FIELDS,
                      "devman: assignment to " + U(tgt))
@@ -406,6 +438,22 @@ def devman(cls):
         s = find_prop(cls, prop, True)
         need([a.arg for a in s.args.args] == ['self', prop], f"devman: setter {prop} signature")
         out[lean] = f"def {lean} (p : Peer Rec) (v : {ty}) : Peer Rec := {fields_prog(locked_body(s), {prop: 'v'})}"
+    g = find_prop(cls, 'resets', False)
+    gb = locked_body(g)
+    need(len(gb) == 1 and U(gb[0]) == 'return self._resets', "devman: getter resets does not return the plain counter")
+    need(not any(isinstance(n, ast.FunctionDef) and n.name == 'resets' and [U(x) for x in n.decorator_list] == ['resets.setter']
+                 for n in cls.body), "devman: resets has a setter")
+    fn = find_func(cls, 'contacted')
+    need([a.arg for a in fn.args.args] == ['self', 'now', 'resets'], "devman: contacted signature")
+    out['contacted'] = ("def contacted (p : Peer Rec) (now : Int) (seen : Nat) : Peer Rec := "
+                        + fields_prog(locked_body(fn), {'now': 'now', 'resets': 'seen'}))
+    # nothing but __init__ and clear_last writes the counter
+    for n in cls.body:
+        if isinstance(n, ast.FunctionDef) and n.name not in ('__init__', 'clear_last'):
+            for sub in ast.walk(n):
+                if isinstance(sub, (ast.Assign, ast.AnnAssign, ast.AugAssign)):
+                    tg = sub.targets[0] if isinstance(sub, ast.Assign) else sub.target
+                    need(U(tg) != 'self._resets', f"devman: {n.name} writes the reset counter")
     for meth, lean in (('clear_last', 'clearLast'), ('clear_stash', 'clearStash')):
         fn = find_func(cls, meth)
         need([a.arg for a in fn.args.args] == ['self'], f"devman: {meth} signature")
@@ -450,7 +498,7 @@ def devman(cls):
         else:
             need(U(st) == 'super().__init__()', "devman: constructor statement " + U(st)[:60])
     need(set(vals) == set(DEV_FIELDS), "devman: constructor does not initialise all modelled fields")
-    order = ['_last_comms', '_last_attempt', '_flag_reset', '_stash_completed', '_stash_halted', '_stash_updated']
+    order = ['_last_comms', '_last_attempt', '_resets', '_flag_reset', '_stash_completed', '_stash_halted', '_stash_updated']
     out['initPeer'] = "def initPeer (flag : Bool) : Peer Rec := ⟨" + ', '.join(vals[f] for f in order) + "⟩"
     return out
 
@@ -530,6 +578,7 @@ def defaultPeriods : Periods :=
 {dm['setLastAttempt']}
 {dm['setFlagReset']}
 {dm['clearLast']}
+{dm['contacted']}
 {dm['clearStash']}
 {dm['appendStash']}
 {dm['sizeStash']}
@@ -550,7 +599,7 @@ def payload (t : MsgType) (snapshot cache : Msg Rec) (p : Peer Rec) : Msg Rec :=
   match t with
 {match3(pay)}
 
-def book (t : MsgType) (flags err : Nat) (now : Int) (cache : Msg Rec) (p : Peer Rec) : Peer Rec :=
+def book (t : MsgType) (flags err : Nat) (now : Int) (seen : Nat) (cache : Msg Rec) (p : Peer Rec) : Peer Rec :=
   match t with
 {match3(book)}
 
